@@ -73,6 +73,33 @@ def run(ctx):
                                "exit_status": r["rc"], "stderr_tail": r["stderr"][-500:], "skel_error": err[-300:], "world": wid,
                                "files_base": meta.world_sources(rs["base"][0], wid) if wid else {}, "files": meta.world_sources(root, wid) if wid else {},
                                "what": "the same program rendered with another layout gets different verdicts"})
+    # several statements of one code on ONE line, and the same file after gofmt (one statement per line): the reported statements
+    # must be the same - identified by code and by the text of the statement at the reported position
+    import shutil, re
+    two = {"p/p.go": "package p\n\n// T is annotated.\n// @immutable\n// @constructor NewT\ntype T struct{ n, total int }\n\nfunc NewT() *T { return &T{} }\n\n"
+                     "func reset(c *T) { c.n = 0; c.total = 0 }\n\nfunc bump(c *T) {\n\tc.n++; c.total++\n\tc.n += 1; c.total += 2\n\t_ = T{}; _ = T{n: 1}\n\tvar a T; var b T\n\t_, _ = a, b\n}\n"}
+    td = lib.scratch_dir()
+    ra, rb = os.path.join(td, "a", "m"), os.path.join(td, "b", "m")
+    worlds.write_sources(ra, two)
+    worlds.write_sources(rb, two)
+    meta.gofmt(ctx, rb)
+
+    def stmts(root):
+        r = lib.run_binary(ctx, root, timeout=600)
+        src = open(os.path.join(root, "p/p.go")).read().split("\n")
+        out = []
+        for x in r["diags"]:
+            rest = src[x["line"] - 1][x["col"] - 1:]
+            out.append((x["code"], re.split(r"[;{}]", rest)[0].strip()))
+        return sorted(out), r
+    sa, r1 = stmts(ra)
+    sb, r2 = stmts(rb)
+    if sa != sb or r1["crashed"] or r2["crashed"] or len(sa) != 10:
+        found = True
+        rep.violation({"property": "C12", "kind": "same-line", "files": two, "reported_in_the_original": [list(x) for x in sa], "reported_after_gofmt": [list(x) for x in sb],
+                       "expected_count": 10,
+                       "what": "two statements of one code on one line: the reported statements differ from those of the gofmt'd file (one statement per line)"})
+    shutil.rmtree(td, ignore_errors=True)
     lib.obligation_gate(rep, ctx, "C12", found)
     rep.cov["evaluations"] = evals
     rep.cov["distinct_nontrivial"] = len(nontrivial)
@@ -88,6 +115,10 @@ def run(ctx):
 
 
 def replay(ctx, d):
+    if d.get("kind") == "same-line":
+        import json
+        print(json.dumps(d, indent=1)[:3000])
+        return 0
     import l1
     d = dict(d)
     d["kind"] = "world"
